@@ -1,10 +1,15 @@
 ----------------------------- MODULE Mounts_Gen -----------------------------
-(* TLC as case generator for C05: every configuration of the menu, written as *)
-(* one JSON line per sandbox to build.  The driver receives the table exactly *)
-(* as a client would write it (entries before FilterNotExist) plus the paths  *)
-(* the probe has to look at; it receives no expectation.                      *)
-EXTENDS MountsBase, TLC, Json
-CONSTANTS MaxLen, ContOpts
+(* TLC as case generator for C05.  The configuration space is the one the     *)
+(* model checker explores (MountsBase: ForkCfgsOf / ContCfgsOf).  Every table *)
+(* of at most FullLen entries is written in every variant (namespace runner + *)
+(* container under every option set of ContOpts); of the longer tables TLC    *)
+(* draws NLong at random (and NShort of the short ones when FullLen = 0),     *)
+(* each with the namespace runner and one randomly drawn container variant.   *)
+(* The draw is TLC's (Randomization, -seed = VERIF_SEED).  One JSON line per  *)
+(* sandbox: the table as a client would write it (entries before              *)
+(* FilterNotExist) plus the paths the probe has to look at; no expectation.   *)
+EXTENDS MountsBase, TLC, Json, Randomization
+CONSTANTS MaxLen, ContOpts, FullLen, NShort, NLong
 
 Tup(s) == s \o <<>>        \* a function over 1..0 is written as [] only when it is a tuple
 CaseOf(c) ==
@@ -13,9 +18,24 @@ CaseOf(c) ==
     links   |-> IF c.linkm = "cus" THEN CustomLinks ELSE <<>>,      \* empty: builder default
     maskcfg |-> IF c.maskm = "cus" THEN CustomMasks ELSE <<>>,      \* empty: builder default
     maskchk |-> Masks(c) ]
-Cases == { CaseOf(c) : c \in ForkCfgsOf(MaxLen) \cup ContCfgsOf(MaxLen, ContOpts) }
+
+ForkOf(t) == [impl |-> "fork", kinds |-> t, linkm |-> "none", maskm |-> "none", devnull |-> FALSE]
+ContOf(t, o) == [impl |-> "cont", kinds |-> t, linkm |-> o[1], maskm |-> o[2], devnull |-> o[3]]
+Buildable(c) == Len(Effective(c)) > 0
+
+Full    == TablesUpTo(FullLen)
+Short   == { t \in TablesUpTo(2) \ Full : Len(t) >= 1 }
+Long    == TablesUpTo(MaxLen) \ TablesUpTo(2)
+Drawn   == RandomSubset(NShort, Short) \cup RandomSubset(NLong, Long)
+
+Cfgs ==      { ForkOf(t) : t \in Full \cup Drawn }
+        \cup { c \in { ContOf(t, o) : t \in Full, o \in ContOpts } : Buildable(c) }
+        \cup { c \in { ContOf(t, RandomElement(ContOpts)) : t \in Drawn } : Buildable(c) }
+Cases == { CaseOf(c) : c \in Cfgs }
+Space == Cardinality(ForkCfgsOf(MaxLen)) + Cardinality(ContCfgsOf(MaxLen, ContOpts))
+
 ASSUME ndJsonSerialize("cases.ndjson", SetToSeq(Cases))
-ASSUME PrintT(<<"generated", Cardinality(Cases)>>)
+ASSUME PrintT(<<"generated", Cardinality(Cases), "of", Space>>)
 VARIABLE x
 Init == x = 0
 Next == UNCHANGED x
